@@ -1003,7 +1003,8 @@ func init() {
 		if r.Quick() {
 			plan = []cfg{{shapes[:6], []int{1, 100}, 3, 60 * time.Second}, {shapes[6:], []int{2}, 2, 40 * time.Second}}
 		} else {
-			plan = []cfg{{shapes[:6], []int{1, 2, 100}, 4, 30 * time.Minute}, {shapes[6:], []int{1, 2, 100}, 3, 30 * time.Minute}}
+			// budgets are per search and there are about two hundred searches: sized so that the tier ends within the hour
+			plan = []cfg{{shapes[:6], []int{1, 100}, 4, 100 * time.Second}, {shapes[6:], []int{2}, 3, 40 * time.Second}}
 		}
 		// the same job declared with LatestOnly, for the shapes whose first hop is outgoing (the previous-run lookup)
 		for _, s := range shapes {
@@ -1012,7 +1013,7 @@ func init() {
 			}
 			depth, budget := 3, 60*time.Second
 			if !r.Quick() {
-				depth, budget = 4, 30*time.Minute
+				depth, budget = 4, 90*time.Second
 			}
 			params, _ := json.Marshal(c18Params{Shape: s, Batch: 1, LatestOnly: true})
 			var alpha []json.RawMessage
@@ -1029,7 +1030,7 @@ func init() {
 			}
 			depth, budget := 2, 40*time.Second
 			if !r.Quick() {
-				depth, budget = 3, 20*time.Minute
+				depth, budget = 3, 40*time.Second
 			}
 			params, _ := json.Marshal(c18Params{Shape: s, Batch: 1, Fresh: true})
 			var alpha []json.RawMessage
@@ -1071,7 +1072,7 @@ func init() {
 			alpha = append(alpha, ob)
 			depth, budget := 3, 40*time.Second
 			if !r.Quick() {
-				depth, budget = 5, 20*time.Minute
+				depth, budget = 5, 40*time.Second
 			}
 			params, _ := json.Marshal(c18Params{Shape: s, Batch: 1})
 			engine.RunSeq(r, engine.SeqSpec{Name: fmt.Sprintf("c18-%s-one-path-only", s.Name), WorkerArgs: []string{"worker", "c18"}, Alphabet: alpha, Params: params, Depth: depth, Budget: budget})
@@ -1083,7 +1084,7 @@ func init() {
 				depth = 2
 			}
 			if !r.Quick() {
-				depth, budget = depth+1, 10*time.Minute
+				depth, budget = depth+1, 30*time.Second
 			}
 			params, _ := json.Marshal(c18Params{Shape: s, Batch: 1, TQ: true})
 			var alpha []json.RawMessage
@@ -1117,7 +1118,7 @@ func init() {
 						w := w
 						depth, budget := 1, 30*time.Second
 						if !r.Quick() {
-							depth, budget = 2, 10*time.Minute
+							depth, budget = 2, 20*time.Second
 						}
 						params, _ := json.Marshal(c18Params{Shape: s, Batch: 1, InitW: &w, InitAt: at})
 						var alpha []json.RawMessage
